@@ -443,43 +443,85 @@ theorem addValidCerts_ind (I : Pool → Prop) (cs : List Cert) (p : Pool) (acc :
     dsimp only
     exact ih _ _ (fun c' hc' => hvc c' (by simp [hc'])) (hvc c (by simp) p hp)
 
+theorem addValidCert_event (p : Pool) (c : Cert) : Event.cert c ∈ (p.addValidCert c).2 := by
+  unfold Pool.addValidCert
+  dsimp only
+  simp
+
+theorem addValidCerts_events (cs : List Cert) (p : Pool) (acc : List Event) :
+    (∀ ev ∈ acc, ev ∈ (p.addValidCerts cs acc).2) ∧ ∀ c ∈ cs, Event.cert c ∈ (p.addValidCerts cs acc).2 := by
+  induction cs generalizing p acc with
+  | nil => exact ⟨fun ev h => h, fun c h => by cases h⟩
+  | cons c cs ih =>
+    unfold Pool.addValidCerts
+    dsimp only
+    obtain ⟨h1, h2⟩ := ih (p.addValidCert c).1 (acc ++ (p.addValidCert c).2)
+    refine ⟨fun ev h => h1 ev (List.mem_append_left _ h), fun c' hc' => ?_⟩
+    rcases List.mem_cons.mp hc' with rfl | hc'
+    · exact h1 _ (List.mem_append_right _ (addValidCert_event p c'))
+    · exact h2 c' hc'
+
+/-- the three ways `Pool::add_vote` can end -/
+theorem addVote_cases (p : Pool) (v : Vote) :
+    (p.addVote v).1 = p ∨ (p.addVote v).1 = (p.slotState v.slot).1 ∨
+    (Adm (p.slotState v.slot).2 v ∧
+      (p.addVote v).1 = (((p.slotState v.slot).1.putSlot ((p.slotState v.slot).2.addVote p.epoch v).1).addValidCerts
+        ((p.slotState v.slot).2.addVote p.epoch v).2.1 []).1 ∧
+      ∀ c ∈ ((p.slotState v.slot).2.addVote p.epoch v).2.1, Event.cert c ∈ (p.addVote v).2.2) := by
+  unfold Pool.addVote
+  split
+  · exact Or.inl rfl
+  split
+  · exact Or.inl rfl
+  dsimp only
+  split
+  · exact Or.inr (Or.inl rfl)
+  · rename_i hsl
+    split
+    · exact Or.inr (Or.inl rfl)
+    · rename_i hig
+      have ha : Adm (p.slotState v.slot).2 v := ⟨hsl, by simpa using hig⟩
+      have hep : (p.slotState v.slot).1.epoch = p.epoch := (slotState_frame p v.slot).1
+      rw [hep]
+      refine Or.inr (Or.inr ⟨ha, rfl, fun c hc => ?_⟩)
+      exact List.mem_append_left _ ((addValidCerts_events _ _ _).2 c hc)
+
 /-- the call structure of `Pool::add_vote` -/
 theorem addVote_ind (I : Pool → Prop) (p : Pool) (v : Vote)
     (hss : ∀ s, I p → I (p.slotState s).1)
     (hput : Adm (p.slotState v.slot).2 v → I (p.slotState v.slot).1 →
       I ((p.slotState v.slot).1.putSlot ((p.slotState v.slot).2.addVote p.epoch v).1))
-    (hvc : ∀ c ∈ ((p.slotState v.slot).2.addVote p.epoch v).2.1, ∀ q, I q → I (q.addValidCert c).1)
+    (hvc : ∀ c ∈ ((p.slotState v.slot).2.addVote p.epoch v).2.1, Event.cert c ∈ (p.addVote v).2.2 →
+      ∀ q, I q → I (q.addValidCert c).1)
     (hp : I p) : I (p.addVote v).1 := by
-  unfold Pool.addVote
+  rcases addVote_cases p v with h | h | ⟨ha, h, hev⟩
+  · rw [h]; exact hp
+  · rw [h]; exact hss _ hp
+  · rw [h]
+    exact addValidCerts_ind I _ _ _ (fun c hc => hvc c hc (hev c hc)) (hput ha (hss _ hp))
+
+/-- the three ways `Pool::add_cert` can end -/
+theorem addCert_cases (p : Pool) (c : Cert) :
+    (p.addCert c).1 = p ∨ (p.addCert c).1 = (p.slotState c.slot).1 ∨
+    ((p.addCert c).1 = ((p.slotState c.slot).1.addValidCert c).1 ∧ Event.cert c ∈ (p.addCert c).2.2) := by
+  unfold Pool.addCert
   split
-  · exact hp
-  split
-  · exact hp
+  · exact Or.inl rfl
   dsimp only
-  split
-  · exact hss _ hp
-  · rename_i hsl
-    split
-    · exact hss _ hp
-    · rename_i hig
-      have ha : Adm (p.slotState v.slot).2 v := ⟨hsl, by simpa using hig⟩
-      have hep : (p.slotState v.slot).1.epoch = p.epoch := (slotState_frame p v.slot).1
-      rw [hep]
-      exact addValidCerts_ind I _ _ _ hvc (hput ha (hss _ hp))
+  split <;> split
+  all_goals first
+    | exact Or.inr (Or.inl rfl)
+    | exact Or.inr (Or.inr ⟨rfl, addValidCert_event _ c⟩)
 
 /-- the call structure of `Pool::add_cert` -/
 theorem addCert_ind (I : Pool → Prop) (p : Pool) (c : Cert)
     (hss : ∀ s, I p → I (p.slotState s).1)
-    (hvc : ∀ q, I q → I (q.addValidCert c).1)
+    (hvc : Event.cert c ∈ (p.addCert c).2.2 → ∀ q, I q → I (q.addValidCert c).1)
     (hp : I p) : I (p.addCert c).1 := by
-  unfold Pool.addCert
-  split
-  · exact hp
-  dsimp only
-  split <;> split
-  all_goals first
-    | exact hss _ hp
-    | exact hvc _ (hss _ hp)
+  rcases addCert_cases p c with h | h | ⟨h, hev⟩
+  · rw [h]; exact hp
+  · rw [h]; exact hss _ hp
+  · rw [h]; exact hvc hev _ (hss _ hp)
 
 /-- the tracker accepted the registration `b → par` -/
 def accepted (p : Pool) (b par : Nat × Nat) : Prop :=
